@@ -312,14 +312,22 @@ def strace_save(wallet_json_old, new_wallet, stale=None):
                            env={**os.environ, "PYTHONDONTWRITEBYTECODE": "1"})
         if p.returncode != 0 or not os.path.exists(os.path.join(d, "trace.txt")):
             return None, open(os.path.join(d, "wallet.json")).read()
+        return parse_trace(os.path.join(d, "trace.txt"), "wallet.json"), open(os.path.join(d, "wallet.json")).read()
+    finally:
+        shutil.rmtree(d, ignore_errors=True)
+
+
+def parse_trace(path, track):
+    """the system calls of an strace log that touch files whose name contains `track`"""
+    if True:
         fds, calls = {}, []
-        for line in open(os.path.join(d, "trace.txt"), errors="replace"):
+        for line in open(path, errors="replace"):
             line = re.sub(r"^\d+\s+", "", line)
             m = re.match(r'openat\(AT_FDCWD, "((?:\\x[0-9a-f]{2})*)", ([A-Z_|0-9]+)(?:, [0-7]+)?\) = (\d+)', line)
             if m:
                 name = bytes.fromhex(m.group(1).replace("\\x", "")).decode(errors="replace")
                 flags, fd = m.group(2), int(m.group(3))
-                if "wallet.json" in name:
+                if track in name:
                     fds[fd] = name
                     if "O_WRONLY" in flags or "O_RDWR" in flags:
                         calls.append(("open", name, "O_TRUNC" in flags))
@@ -336,24 +344,22 @@ def strace_save(wallet_json_old, new_wallet, stale=None):
             if m:
                 a = bytes.fromhex(m.group(1).replace("\\x", "")).decode(errors="replace")
                 b = bytes.fromhex(m.group(2).replace("\\x", "")).decode(errors="replace")
-                if "wallet.json" in a or "wallet.json" in b:
+                if track in a or track in b:
                     calls.append(("rename", a, b))
                 continue
             m = re.match(r'unlink(?:at)?\((?:AT_FDCWD, )?"((?:\\x[0-9a-f]{2})*)"', line)
             if m:
                 a = bytes.fromhex(m.group(1).replace("\\x", "")).decode(errors="replace")
-                if "wallet.json" in a:
+                if track in a:
                     calls.append(("unlink", a))
-        return calls, open(os.path.join(d, "wallet.json")).read()
-    finally:
-        shutil.rmtree(d, ignore_errors=True)
+        return calls
 
 
-def replay_prefix(old, calls, n, stale=None):
+def replay_prefix(old, calls, n, stale=None, name="wallet.json"):
     """file contents after the first n system calls (a crash right after call n)"""
-    files = {"wallet.json": old.encode()}
+    files = {name: old.encode()}
     if stale is not None:
-        files["wallet.json.new"] = stale.encode()
+        files[name + ".new"] = stale.encode()
     offset = {}
     for c in calls[:n]:
         if c[0] == "open":
